@@ -145,6 +145,8 @@ class AbstractSpecification(object):
 
     def parse(self):
         self.ast.parse()
+        # the interpreter is attached to the new formulas at the next evaluation
+        self.set_ast_flag = False
 
     # forwarding to interpreter
     def set_sampling_period(self, sampling_period=int(1), unit='s', tolerance=float(0.1)):
